@@ -27,5 +27,10 @@ out += ["", "Checks that missed a change when it arrived and were strengthened b
         "(slow property setter on the no-spawn interface), C37 (bus refusing AddMatch), C36 (NameAcquired right behind the",
         "InQueue reply), C33 (argument-filtered signal streams).  After that every kept change is caught",
         "by the quick tier at VERIF_SEED=0 (SWEEP.txt).", ""]
+pending = [json.load(open(d))["name"] for d in sorted(glob.glob(os.path.join(root, "*/meta.json")))
+           if "NOT RUN" in json.dumps(json.load(open(d)).get("confirmed_by_me", {}))]
+if pending:
+    out += ["", "Exception: for " + ", ".join("`%s`" % n for n in pending) + " the demo was confirmed both ways but the pinned suite",
+            "was not re-run with the change (session ended); these entries are provisional until that is done.", ""]
 open(os.path.join(root, "README.md"), "w").write("\n".join(out))
 print(len(rows), "seeded changes")
